@@ -169,6 +169,11 @@ def gen_enum(rng, name, max_bits=40):
     k = rng.randint(0, max_bits)
     top = rng.choice([2 ** k - 1, 2 ** k, 2 ** k + 1, rng.randint(0, 2 ** k)])
     top = max(top, 0)
+    if max_bits >= 40 and rng.random() < 0.08:
+        # flag-style enums whose top enumerator is a power of two (or one above it) beyond 2^48, where a width computed through a
+        # floating-point log2 is still exact for these two shapes (for 2^k - 1 it is not: DESIGN, "seen but not claimed")
+        k = rng.randint(49, 62)
+        top = 2 ** k + rng.choice([0, 0, 1])
     n = min(n, top + 1)
     vals = {top}
     while len(vals) < n:
